@@ -22,10 +22,19 @@ RULE = ("case = byte content (0..~4 KiB quick; lines of length 0..1100 incl. 63/
 def gen_case(rng, tier):
     r = rng.random()
     kind = rng.choice(['std', 'std', 'multi', 'derived'])
+    where = None
     if r < 0.08:
         content, times = rng.choice([b'', b'\n', b'\n\n', b'x', b'x\n', b'\nx', b'\nab\ncd', b'\n\nab\n',
                                      b'x' * 256, b'x' * 257 + b'\n', b'\n' + b'y' * 255,
                                      b'a' * 512 + b'\n' + b'b' * 300]), []
+    elif r < 0.13:
+        # the first line is a timestamp behind a few stray bytes (a NUL left by copytruncate,
+        # a quote, a comment sign): not a dated line, and not a line boundary after byte 0
+        content, times = K.gen_log(rng, rng.choice([1, 2, 3, 6]), kind, ordered=True,
+                                   undated=rng.choice([0.0, 0.3]), longs=0.1, embedded=0.0)
+        content = rng.choice([b'#', b'"', b'\x00', b'x', b' ', b'##', b'\n#']) + \
+            content.lstrip(b'\n')
+        where = 'before' if rng.random() < 0.6 else None
     else:
         n = rng.choice([1, 2, 3, 4, 6, 10, 25])
         content, times = K.gen_log(rng, n, kind, ordered=rng.random() < 0.6,
@@ -35,8 +44,12 @@ def gen_case(rng, tier):
                                    lookalike=0.2 if rng.random() < 0.3 else 0.0)
         if len(content) > 6000:
             content = content[:6000]
-    cons = K.gen_since(rng, times, kind)
-    return {'content': content.hex(), 'cons': cons, 'order_seed': rng.randrange(1 << 30)}
+    cons = K.gen_since(rng, times, kind, where)
+    case = {'content': content.hex(), 'cons': cons, 'order_seed': rng.randrange(1 << 30)}
+    if rng.random() < 0.12 and len(content) <= 1500:
+        # the lookups are made on a GzipFile over the same bytes (1..3 members)
+        case['gz_members'] = rng.choice([1, 2, 3])
+    return case
 
 
 def gen_big_case(rng):
@@ -77,7 +90,8 @@ def eval_cases(rng, count, extra):
         content = case_content(case)
         offs = case.get('offsets')
         impl = {'tfl': K.impl_tfl_all(content, case['cons'], offs,
-                                      order_seed=case.get('order_seed')),
+                                      order_seed=case.get('order_seed'),
+                                      gz_members=case.get('gz_members', 0)),
                 'apply': K.impl_apply(content, case['cons']),
                 # the non-destructive form (returns the offset, leaves the position alone)
                 'apply_nd': K.impl_apply(content, case['cons'], destructive=False)}
